@@ -9,6 +9,7 @@ and implicit run-time checks become proof obligations.
 """
 import json
 import math
+import re
 import struct
 from collections import defaultdict
 
@@ -258,6 +259,18 @@ def merge_many(gvs):
             for a in v.alts:
                 alts.append((And(g, a[0]),) + tuple(a[1:]))
         return cls(fuse_alts(alts, keyf))
+    if isinstance(v0, T):
+        # the merged value is only used where one of the guards holds: conjuncts common to all
+        # guards carry no information there; dropping them keeps terms context-free (same
+        # callee, same term, whatever the call site's path condition)
+        common = None
+        for g, v in gvs:
+            ls = TM._lits(g)
+            common = ls if common is None else (common & ls)
+            if not common:
+                break
+        if common:
+            gvs = [(And(*[l for l in TM._lits(g) if l not in common]), v) for g, v in gvs]
     res = gvs[-1][1]
     for g, v in reversed(gvs[:-1]):
         res = merge2(g, v, res)
@@ -769,7 +782,12 @@ class Executor(object):
             sp = self.split_call(fn, name, args, guard, ins)
             if sp is not NotImplemented:
                 return sp
-        return self.run_function(fn, args, guard)
+        r = self.run_function(fn, args, guard)
+        sre = getattr(self, 'stage_re', None)
+        if sre and isinstance(r, T) and r.sort == 'F' and r.op != 'const' and re.search(sre, name.split('.')[-1]):
+            self.nstage += 1
+            r = stage('%s#%d' % (name, self.nstage), r)
+        return r
 
     def split_funcs(self, fn):
         r = getattr(fn, '_split', None)
